@@ -356,8 +356,12 @@ def make_kernel_zero_region(kernel, n=1):
 
 
 def obligations(tier):
+    # "no -inf particle is ever stored" also for runs whose likelihood returns blobs: the warm-up step with blobs is C07's obligation
+    # (records stay coherent AND no -inf row is stored); imported here because the clause is C11's
+    from vf.props.c07 import make_warmup as warmup_records
     if tier == "quick":
-        return [make_warmup_run(2, 2), make_warmup_run(2, 3), make_warmup_run(3, 2), make_warmup_run(2, 3, dynamic=True), make_warmup_resume(2, 1, 2), make_kernel_zero_region("rwm"), make_kernel_zero_region("tpcn")]
+        return [make_warmup_run(2, 2), make_warmup_run(2, 3), make_warmup_run(3, 2), make_warmup_run(2, 3, dynamic=True), make_warmup_resume(2, 1, 2), make_kernel_zero_region("rwm"), make_kernel_zero_region("tpcn"),
+                warmup_records(2, 1, True)]
     return [make_warmup_run(2, 2), make_warmup_run(2, 3), make_warmup_run(3, 2), make_warmup_run(3, 3),
             make_warmup_run(2, 3, dynamic=True), make_warmup_run(3, 2, dynamic=True), make_warmup_resume(2, 1, 2), make_warmup_resume(2, 2, 2), make_warmup_resume(3, 1, 1),
-            make_kernel_zero_region("rwm"), make_kernel_zero_region("tpcn"), make_kernel_zero_region("rwm", n=2)]
+            make_kernel_zero_region("rwm"), make_kernel_zero_region("tpcn"), make_kernel_zero_region("rwm", n=2), warmup_records(2, 1, True), warmup_records(2, 2, True)]
